@@ -9,6 +9,15 @@
 
 namespace rlbox::detail {
 
+// Computes count * elem_size, aborting if the product does not fit in a size_t
+inline size_t checked_range_size(size_t count, size_t elem_size)
+{
+  detail::dynamic_check(elem_size == 0 ||
+                          count <= static_cast<size_t>(-1) / elem_size,
+                        "range size has overflowed");
+  return count * elem_size;
+}
+
 // Checks that a given range is either entirely in a sandbox or entirely
 // outside
 template<typename T_Sbx>
@@ -20,6 +29,9 @@ inline void check_range_doesnt_cross_app_sbx_boundary(const void* ptr,
     ptr_start_val,
     "Performing memory operation memset/memcpy on a null pointer");
   auto ptr_end_val = ptr_start_val + size - 1;
+  // a range whose end wraps around the address space is never valid
+  detail::dynamic_check(size == 0 || ptr_end_val >= ptr_start_val,
+                        "range has overflowed sandbox bounds");
 
   auto ptr_start = reinterpret_cast<void*>(ptr_start_val);
   auto ptr_end = reinterpret_cast<void*>(ptr_end_val);
